@@ -52,7 +52,7 @@ SPEC = dict(
          "opened incoming in-band job; MUC manager with a room waiting for its permission lists); the default set, also over a "
          "really connected loopback socket and after that socket was disconnected again; bookmark / room / job sets next to "
          "competing managers; all managers together in 3 (quick) / 7 (thorough) registration orders with the stateful variants "
-         "rotated in; 8 / 60 random small sets. A fresh client per cell (every 50 cells in the quick stateless all-managers runs). "
+         "rotated in; 8 / 24 random small sets. A fresh client per cell (every 50 cells in the quick stateless all-managers runs). "
          "The 37 witness cells of the repaired defects run first. Each line compares who decided (measured with probe extensions "
          "between the managers), number of IQ replies, per reply result | error type + defined condition / to / id / sent through "
          "the e2ee extension, other traffic, and the stream error, between the real client and the Lean model; a configuration is "
